@@ -15,7 +15,7 @@ OA, OI = Opt(ATOM), Opt(INT)
 @contract(W, 'dawgie/pl/message.py', 'make', props=['C03', 'C11'])
 class message_make(ContractBase):
     params = {'ctxt': Opt(ATOM), 'fac': Opt(FACREF), 'inc': Opt(ATOM), 'jid': Opt(ATOM), 'psh': Opt(INT), 'rev': Opt(ATOM), 'rid': Opt(INT),
-              'suc': Opt(BOOL), 'target': Opt(ATOM), 'tim': Opt(ATOM), 'typ': MTYPE, 'val': Opt(ATOM)}
+              'suc': Opt(BOOL), 'target': Opt(ATOM), 'tim': Opt(Ref('Timing')), 'typ': MTYPE, 'val': Opt(ATOM)}
     defaults = {'ctxt': None, 'fac': None, 'inc': None, 'jid': None, 'psh': None, 'rev': None, 'rid': None, 'suc': None, 'target': None,
                 'tim': None, 'typ': dawgie.pl.message.Type.wait, 'val': None}
     inline = True
